@@ -24,8 +24,10 @@ import (
 	"google.golang.org/grpc/credentials/insecure"
 	"google.golang.org/grpc/status"
 
+	"verifharness/internal/cluster"
 	"verifharness/internal/ev"
 	"verifharness/internal/gen"
+	"verifharness/internal/model"
 )
 
 var msgLimits = []uint64{200, 1024, 4 << 20}
@@ -81,7 +83,11 @@ type l2 struct {
 	simple    *logreader.Simple
 	srvs      []*l2srv
 	mu        sync.Mutex
-	hist      map[uint64][]byte // revision -> marshalled command as proposed
+	hist      map[uint64][]byte // revision -> marshalled command as proposed, top-level leader_index removed
+	stored    map[uint64]int    // revision -> length of the bytes really proposed
+	labelled  map[uint64]uint64 // revision -> foreign leader_index the stored command carries
+	restored  map[string][]byte // pairs of the restored backup
+	restoreTo uint64            // log indices <= this were written by Engine.Restore
 	desc      map[uint64]string
 	maxRev    uint64
 	tainted   bool
@@ -99,7 +105,7 @@ type l2 struct {
 
 func runL2(r *ev.Run, rep *reporter, id caseID) {
 	rnd := rand.New(rand.NewSource(id.Seed))
-	h := &l2{r: r, rep: rep, id: id, rnd: rnd, g: gen.New(id.Seed), hist: map[uint64][]byte{}, desc: map[uint64]string{}}
+	h := &l2{r: r, rep: rep, id: id, rnd: rnd, g: gen.New(id.Seed), hist: map[uint64][]byte{}, desc: map[uint64]string{}, stored: map[uint64]int{}, labelled: map[uint64]uint64{}}
 	h.g.NewPool(8)
 	h.cacheSize = cacheSizes[rnd.Intn(len(cacheSizes))]
 	h.hook = &evHook{}
@@ -117,6 +123,13 @@ func runL2(r *ev.Run, rep *reporter, id caseID) {
 	if h.eng.LogCache == nil {
 		r.Inconclusive("engine has no log cache")
 		return
+	}
+	if id.Restore {
+		if err := h.restoreTable(); err != nil {
+			r.Inconclusive("restore: " + err.Error())
+			return
+		}
+		r.Count("l2_histories_on_restored_table", 1)
 	}
 	h.tbl, err = h.eng.GetTable("t")
 	if err != nil {
@@ -251,8 +264,18 @@ func (h *l2) quiesce() {
 	}
 }
 
+// record notes the command proposed at a revision. What must come back on the stream is that
+// command with ONLY its top-level leader_index replaced by the entry's own index ("each labelled
+// with its own index"), so the expectation is kept without the top-level label.
 func (h *l2) record(rev uint64, cmd *pb.Command, d string) {
+	full, err := cmd.MarshalVT()
+	if err != nil {
+		panic(err)
+	}
+	li := cmd.LeaderIndex
+	cmd.LeaderIndex = nil
 	b, err := cmd.MarshalVT()
+	cmd.LeaderIndex = li
 	if err != nil {
 		panic(err)
 	}
@@ -260,6 +283,10 @@ func (h *l2) record(rev uint64, cmd *pb.Command, d string) {
 	defer h.mu.Unlock()
 	if _, dup := h.hist[rev]; dup {
 		h.tainted = true
+	}
+	h.stored[rev] = len(full)
+	if li != nil {
+		h.labelled[rev] = *li
 	}
 	h.hist[rev] = b
 	h.desc[rev] = d
@@ -294,6 +321,9 @@ func (h *l2) proposeOne() error {
 	ctx, cancel := context.WithTimeout(context.Background(), 10*time.Second)
 	defer cancel()
 	tn := []byte("t")
+	if h.rnd.Intn(6) == 0 {
+		return h.proposeLabelled(ctx)
+	}
 	switch k := h.rnd.Intn(10); {
 	case k < 6:
 		req := &pb.PutRequest{Table: tn, Key: h.g.Key(), Value: h.value(), PrevKv: h.rnd.Intn(3) == 0}
@@ -346,6 +376,131 @@ func (h *l2) proposeOne() error {
 	}
 	h.r.Count("l2_proposals", 1)
 	return nil
+}
+
+// proposeLabelled writes, directly on the table shard, a command that is STORED with a
+// leader_index of its own: a SEQUENCE whose sub-commands are labelled too (what
+// replication/worker.proposeBatch proposes on a table that is or was a replica) or a PUT_BATCH
+// (what Manager.readIntoTable proposes for the closing batch of a restore). The foreign index is
+// far away from any index of this log.
+func (h *l2) proposeLabelled(ctx context.Context) error {
+	tn := []byte("t")
+	foreign := uint64(1_000_000 + h.rnd.Intn(1_000_000))
+	cmd := &pb.Command{LeaderIndex: &foreign}
+	var d string
+	if h.rnd.Intn(3) > 0 {
+		cmd.Type = pb.Command_SEQUENCE
+		for i, n := 0, 1+h.rnd.Intn(3); i < n; i++ {
+			sub := foreign - uint64(n-1-i)
+			if h.rnd.Intn(3) == 0 {
+				cmd.Sequence = append(cmd.Sequence, &pb.Command{Type: pb.Command_DELETE, Table: tn, Kv: &pb.KeyValue{Key: h.g.Key()}, LeaderIndex: &sub})
+			} else {
+				cmd.Sequence = append(cmd.Sequence, &pb.Command{Type: pb.Command_PUT, Table: tn, Kv: &pb.KeyValue{Key: h.g.Key(), Value: h.value()}, LeaderIndex: &sub})
+			}
+		}
+		d = fmt.Sprintf("Sequence(%d cmds, stored leader_index %d)", len(cmd.Sequence), foreign)
+	} else {
+		cmd.Type, cmd.Table = pb.Command_PUT_BATCH, tn
+		for i, n := 0, 1+h.rnd.Intn(3); i < n; i++ {
+			cmd.Batch = append(cmd.Batch, &pb.KeyValue{Key: h.g.Key(), Value: h.value()})
+		}
+		d = fmt.Sprintf("PutBatch(%d pairs, stored leader_index %d)", len(cmd.Batch), foreign)
+	}
+	b, err := cmd.MarshalVT()
+	if err != nil {
+		return err
+	}
+	before, berr := h.applied()
+	if _, err := h.eng.NodeHost.SyncPropose(ctx, h.eng.NodeHost.GetNoOPSession(h.shard), b); err != nil {
+		return err
+	}
+	after, aerr := h.applied()
+	if berr != nil || aerr != nil || after != before+1 {
+		// single proposer: anything else means the revision cannot be attributed
+		h.mu.Lock()
+		h.tainted = true
+		h.mu.Unlock()
+		h.r.Note(fmt.Sprintf("labelled proposal %s: applied %d (err %v) -> %d (err %v)", d, before, berr, after, aerr))
+		return nil
+	}
+	h.record(after, cmd, d)
+	h.r.Count("l2_proposals", 1)
+	h.r.Count("l2_proposals_stored_with_own_leader_index", 1)
+	return nil
+}
+
+// restoreTable replaces the freshly created table by one restored from a backup stream in the
+// format BackupServer/SnapshotServer produce: one PUT per pair and the closing DUMMY marker with
+// the index the backup was taken at. Engine.Restore moves the table to a new shard whose log
+// starts with the restore's PUT_BATCH proposals, the closing one stamped with that index.
+func (h *l2) restoreTable() error {
+	h.restored = map[string][]byte{}
+	var kvs []model.KV
+	for i, n := 0, 4+h.rnd.Intn(8); i < n; i++ {
+		k := fmt.Sprintf("restored-%02d", i)
+		v := h.value()
+		if v == nil {
+			v = []byte{}
+		}
+		h.restored[k] = v
+		kvs = append(kvs, model.KV{K: k, V: v})
+	}
+	li := uint64(2_000_000 + h.rnd.Intn(1000))
+	rd, cleanup, err := cluster.SnapshotStream("t", kvs, &li)
+	if err != nil {
+		return err
+	}
+	defer cleanup()
+	old, err := h.eng.GetTable("t")
+	if err != nil {
+		return err
+	}
+	if err := h.eng.Restore("t", rd); err != nil {
+		return err
+	}
+	deadline := time.Now().Add(30 * time.Second)
+	for {
+		_ = h.eng.Manager.VerifReconcile()
+		if t, err := h.eng.GetTable("t"); err == nil && t.ClusterID != old.ClusterID {
+			if _, _, valid, err := h.eng.GetLeaderID(t.ClusterID); err == nil && valid {
+				ctx, cancel := context.WithTimeout(context.Background(), 5*time.Second)
+				ir, err := t.LocalIndex(ctx, true)
+				cancel()
+				if err == nil {
+					h.restoreTo = ir.Index
+					return nil
+				}
+			}
+		}
+		if time.Now().After(deadline) {
+			return fmt.Errorf("restored table not ready")
+		}
+		time.Sleep(20 * time.Millisecond)
+	}
+}
+
+// restoredEntryOK judges the content of a command at an index written by Engine.Restore: a
+// Raft-internal entry (DUMMY) or a PUT_BATCH for this table made only of pairs of the backup.
+// (How the restore cuts the pairs into batches is property C07's subject.)
+func (h *l2) restoredEntryOK(body []byte) (bool, string) {
+	dummy, _ := (&pb.Command{Type: pb.Command_DUMMY}).MarshalVT()
+	if bytes.Equal(dummy, body) {
+		return true, ""
+	}
+	c := &pb.Command{}
+	if err := c.UnmarshalVT(body); err != nil {
+		return false, "undecodable: " + err.Error()
+	}
+	if c.Type != pb.Command_PUT_BATCH || string(c.Table) != "t" || c.Kv != nil || len(c.Sequence) > 0 || c.Txn != nil {
+		return false, fmt.Sprintf("type %v table %q", c.Type, c.Table)
+	}
+	for _, kv := range c.Batch {
+		v, ok := h.restored[string(kv.Key)]
+		if !ok || !bytes.Equal(v, kv.Value) {
+			return false, fmt.Sprintf("pair %q is not a pair of the backup", kv.Key)
+		}
+	}
+	return true, ""
 }
 
 func (h *l2) propose(n int) error {
@@ -594,10 +749,10 @@ func (h *l2) concurrentPhase() bool {
 // tables use no entry compression); otherwise it is read from the log if the entry is still there.
 func (h *l2) entrySize(idx uint64) (uint64, bool) {
 	h.mu.Lock()
-	b, ok := h.hist[idx]
+	n, ok := h.stored[idx]
 	h.mu.Unlock()
 	if ok {
-		return uint64(128 + 1 + len(b)), true
+		return uint64(128 + 1 + n), true
 	}
 	es, err := h.simple.QueryRaftLog(context.Background(), h.shard, dragonboat.LogRange{FirstIndex: idx, LastIndex: idx + 1}, math.MaxUint64)
 	if err != nil || len(es) != 1 || es[0].Index != idx {
@@ -764,15 +919,35 @@ func (h *l2) validStream(c *l2call, probe bool) bool {
 				case rc.idx != next:
 					return bad("stream-gap-or-repeat", fmt.Sprintf("command labelled %d where %d was due", rc.idx, next))
 				case rc.inner == nil || *rc.inner != rc.idx:
-					return bad("stream-command-inner-label-mismatch", fmt.Sprintf("command %d: Command.leader_index is %v", rc.idx, fmtPtr(rc.inner)))
+					h.mu.Lock()
+					foreign, lab := h.labelled[rc.idx]
+					h.mu.Unlock()
+					note := ""
+					if lab {
+						note = fmt.Sprintf(" (the stored command carries leader_index %d of its own)", foreign)
+					} else if rc.idx <= h.restoreTo {
+						note = " (entry written by Engine.Restore)"
+					}
+					return bad("stream-command-inner-label-mismatch", fmt.Sprintf("command at log index %d (envelope leader_index %d): Command.leader_index is %v%s", next, rc.idx, fmtPtr(rc.inner), note))
 				case rc.idx > apHi:
 					return bad("stream-command-beyond-applied-index", fmt.Sprintf("command %d streamed, applied index after the call is %d", rc.idx, apHi))
 				}
-				if !tainted && rc.idx <= maxRev {
+				if rc.idx <= h.restoreTo {
+					if ok, why := h.restoredEntryOK(rc.body); !ok {
+						return bad("stream-restore-entry-content", fmt.Sprintf("index %d was written by Engine.Restore but is streamed as %v: %s", rc.idx, rc.typ, why))
+					}
+					if !probe && rc.typ == pb.Command_PUT_BATCH {
+						h.r.Count("l2_restore_batches_streamed", 1)
+					}
+				} else if !tainted && rc.idx <= maxRev {
 					h.mu.Lock()
 					exp, proposed := h.hist[rc.idx]
 					d := h.desc[rc.idx]
+					_, lab := h.labelled[rc.idx]
 					h.mu.Unlock()
+					if proposed && lab && !probe {
+						h.r.Count("l2_streamed_commands_stored_with_own_leader_index", 1)
+					}
 					if proposed {
 						if !bytes.Equal(exp, rc.body) {
 							return bad("stream-command-differs-from-proposed", fmt.Sprintf("command %d: streamed %v (%d B) is not the proposed %s (%d B)", rc.idx, rc.typ, len(rc.body), d, len(exp)))
